@@ -68,18 +68,43 @@ def create_wrapper_call_site(ctx):
                      "create_wrapper sets args.%s = %r, the command line default is %r" % (attr, val, defaults[attr]))
 
 
+def command_line_last(ctx):
+    """the command line wins over the files: main_with_args puts --language (and the --option dictionary) into the
+    accumulated input AFTER the loop that reads and merges the YAML files"""
+    src = open(os.path.join(REPO, "shroud/main.py")).read()
+    fn = [n for n in ast.parse(src).body if isinstance(n, ast.FunctionDef) and n.name == "main_with_args"][0]
+    loop_end, lang_line, opt_line = None, None, None
+    for st in fn.body:
+        if isinstance(st, ast.For) and ast.unparse(st.iter) == "args.filename":
+            loop_end = st.end_lineno
+        for n in ast.walk(st):
+            if isinstance(n, ast.Assign) and ast.unparse(n.targets[0]).replace('"', "'") == "allinput['language']" \
+                    and ast.unparse(n.value) == "args.language":
+                lang_line = n.lineno
+            if isinstance(n, ast.If) and ast.unparse(n.test) == "args.option" and opt_line is None:
+                opt_line = n.lineno
+    confirm = lambda: ctx.monitor("m_options", "search", 40, ctx.seed)
+    ctx.item("C14/main_with_args:--language-after-files", None not in (loop_end, lang_line) and lang_line > loop_end,
+             "allinput['language'] = args.language (line %r) must follow the loop that merges the YAML files (ends at line %r): "
+             "otherwise the file overrides the command line" % (lang_line, loop_end), confirm=confirm, shape=True)
+    ctx.item("C14/main_with_args:--option-after-files", None not in (loop_end, opt_line) and opt_line > loop_end,
+             "the --option merge (line %r) must follow the loop that merges the YAML files (ends at line %r)" % (opt_line, loop_end),
+             confirm=confirm, shape=True)
+
+
 def run(ctx):
+    command_line_last(ctx)
     unit, ints = main_opts.make_unit(REPO)
     mons = {unit.name: ("m_options", lambda v: None, hint, 40)}
     ctx.pyvc([unit], mons)
     create_wrapper_call_site(ctx)
     from contracts import ast_nodes
-    ctx.pyvc(ast_nodes.UNITS, dict((u.name, ("m_equiv", lambda v: None, lambda nm: {"must_contain": ["inline attributes"]}, 110))
+    ctx.pyvc(ast_nodes.UNITS, dict((u.name, ("m_equiv", lambda v: None, lambda nm: {"must_contain": ["inline attributes"]}, 220))
                                    for u in ast_nodes.UNITS))
     ast_nodes.scope_wiring_items(ctx, REPO)
     # instantiating a class template keeps every enclosing scope (blocks) of its functions: ClassNode.clone, clone_scope_chain
     from contracts import ast_clone
-    eqv = ("m_equiv", lambda v: None, lambda nm: None, 160)
+    eqv = ("m_equiv", lambda v: None, lambda nm: None, 220)
     ctx.pyvc(ast_clone.UNITS, dict((u.name, eqv) for u in ast_clone.UNITS))
     try:
         from contracts import util_scope
@@ -116,7 +141,7 @@ def run(ctx):
                                     "command line (absolute and relative output directory)"})
         if r0["violation"]:
             ctx.violation("bounded/m_options", {"inputs": r0["inputs"], "observed": r0["violation"]}, True)
-        r = ctx.monitor("m_equiv", "search", 160, ctx.seed)
+        r = ctx.monitor("m_equiv", "search", 220, ctx.seed)
         ctx.bounded.append({"monitor": "m_equiv", "inputs_tried": r["tried"], "violation": r["violation"],
                             "kind": "two-run relations, deterministic core: empty blocks / container vs each function in every "
                                     "container kind, inline attributes vs attrs/fattrs"})
